@@ -387,3 +387,38 @@ Theorem piece_ids_disjoint_across_stripes :
   (forall base n m k x, In x (round_ids base n m k) -> (base <= x < base + N.of_nat (k * (n + m)))%N).
 Proof. split; [exact piece_ids_disjoint_lemma | split; [exact round_ids_NoDup_lemma | exact round_ids_in_block_lemma]]. Qed.
 Print Assumptions piece_ids_disjoint_across_stripes.
+
+(* [FULL] rs_readat_exact_or_fail_closed_built: the dichotomy with no blob_ok hypothesis, over the model states built by
+   ops 10, 11, 15 and 40 whose stripes have their n+m hosts recorded: for every blob, offset, length and every set of
+   unavailable holders, ReadAt through the erasure-coded locations equals the replicated read, or is the error class
+   with a byte count not above the replicated one and bytes that are a prefix of the replicated blob's bytes *)
+Theorem rs_readat_exact_or_fail_closed_built :
+  forall s blob off len blank fail,
+    built s ->
+    (forall k, k < length (s_stripes s) -> length (nth k (s_hosts s) []) = s_n s + s_m s) ->
+    let R := read_at true s true blank fail blob off len in
+    let P := read_at true s false [] [] blob off len in
+    R = P \/
+    (snd (fst R) = 2%N /\ (fst (fst R) <= fst (fst P))%N /\ snd R = firstn (N.to_nat (fst (fst R))) (snd P)).
+Proof. exact read_at_exact_or_fail_closed_built_lemma. Qed.
+Print Assumptions rs_readat_exact_or_fail_closed_built.
+
+(* [FULL] rs_readat_fail_closed_blob_built: the blob-level fail-closed statement with no blob_ok hypothesis, over the same
+   built states: a consulted tract needing bytes from a stripe with more than m unavailable holders, its direct piece
+   among them, makes ReadAt return the error class with only a prefix of the replicated bytes, not longer than what was
+   requested from the preceding tracts *)
+Theorem rs_readat_fail_closed_blob_built :
+  forall s blob off len blank fail i t o w k j e,
+    built s ->
+    (forall k, k < length (s_stripes s) -> length (nth k (s_hosts s) []) = s_n s + s_m s) ->
+    nth_error (consulted blob off len) i = Some (t, (o, w)) ->
+    find_in_stripes t (s_stripes s) O = Some (k, j, e) ->
+    down blank fail (nth j (nth k (s_hosts s) []) 0%N) = true ->
+    s_m s < down_count s k blank fail ->
+    (o < t_len (nth t (s_tracts s) dummy_tract))%N ->
+    let R := read_at true s true blank fail blob off len in
+    let P := read_at true s false [] [] blob off len in
+    snd (fst R) = 2%N /\ (fst (fst R) <= req_before blob off len i)%N /\
+    (fst (fst R) <= fst (fst P))%N /\ snd R = firstn (N.to_nat (fst (fst R))) (snd P).
+Proof. exact read_at_fail_closed_blob_built_lemma. Qed.
+Print Assumptions rs_readat_fail_closed_blob_built.
